@@ -36,6 +36,9 @@ type CauchyDistribution struct {
 /* -------------------------------------------------------------------------- */
 
 func NewCauchyDistribution(mu, sigma Scalar) (*CauchyDistribution, error) {
+  if math.IsNaN(mu.GetFloat64()) || math.IsNaN(sigma.GetFloat64()) {
+    return nil, fmt.Errorf("invalid parameters")
+  }
   if sigma.GetFloat64() <= 0.0 {
     return nil, fmt.Errorf("invalid parameters")
   }
